@@ -559,6 +559,95 @@ def real_part(out, wd, seed, n_scen, workers):
         node.kill()
 
 
+def silent_connection_part(out, wd, seed):
+    """a gRPC client that answered at least one liveness probe and then goes silent WITHOUT closing its connection (frozen process,
+    pulled cable): the server must notice through its own probes (detection time-out 3 s here, response time-out 3 s) and
+    remove exactly that connection's ephemeral instances; a busy neighbour connection keeps its own"""
+    import os
+    import signal
+    DET = 3
+    node = procrig.Node(os.path.join(wd, "silent"), 7, env={"RNACOS_GRPC_DETECTION_TIMEOUT_SECOND": str(DET), "RNACOS_NAMING_HEALTH_TIMEOUT_SECOND": "600",
+                                                            "RNACOS_NAMING_INSTANCE_TIMEOUT_SECOND": "1200"}, name="silent")
+    info = {"detection_timeout_s": DET}
+    a = b = None
+    try:
+        node.start()
+        time.sleep(0.5)
+        svc = "c12silent-%d" % seed
+
+        def reg(g, conn, ip):
+            body = {"namespace": "public", "serviceName": svc, "groupName": "DEFAULT_GROUP", "type": "registerInstance",
+                    "instance": {"ip": ip, "port": 80, "weight": 1.0, "healthy": True, "enabled": True, "ephemeral": True, "clusterName": "DEFAULT", "serviceName": svc, "metadata": {}}}
+            r = g.request(conn, "InstanceRequest", body)
+            if not r.get("ok") or r.get("result_code") != 200:
+                raise common.Inconclusive("silent-connection part: registration refused: %s" % str(r)[:200])
+
+        def listed():
+            r = node.get("/nacos/v1/ns/instance/list", params={"serviceName": svc, "healthyOnly": "false"}, timeout=5)
+            return sorted(h.get("ip") for h in ((r.json() or {}).get("hosts") or []))
+        a = grpcrig.GrpcClient(node.grpc_addr, wd, name="silent-a")
+        b = grpcrig.GrpcClient(node.grpc_addr, wd, name="silent-b")
+        a.open_stream("a", report=["ClientDetectionRequest"])
+        b.open_stream("b", report=["ClientDetectionRequest"])
+        reg(a, "a", "10.12.0.1")
+        reg(b, "b", "10.12.0.2")
+        if listed() != ["10.12.0.1", "10.12.0.2"]:
+            raise common.Inconclusive("silent-connection part: registrations not listed: %s" % listed())
+        # idle until A has answered a probe (B keeps talking: it is never probed)
+        t0 = time.time()
+        probes = 0
+        while time.time() - t0 < 4 * DET + 4:
+            reg(b, "b", "10.12.0.2")
+            probes = len([e for e in a.events("push", "a") if e.get("type") == "ClientDetectionRequest" and e.get("acked")])
+            if probes >= 1 and time.time() - t0 > DET + 1.5:
+                break
+            time.sleep(0.4)
+        info["probes_answered_before_silence"] = probes
+        if probes < 1:
+            info["status"] = "inconclusive: the idle connection was not probed"
+            out.extra["silent_connection"] = info
+            return
+        os.kill(a.p.pid, signal.SIGSTOP)
+        t_stop = time.time()
+        bound = DET + 3 + 2 * 2 + 4.0          # detection + response time-out, two 2 s check rounds, slack
+        gone = None
+        while time.time() - t_stop < bound:
+            reg(b, "b", "10.12.0.2")
+            cur = listed()
+            if "10.12.0.1" not in cur:
+                gone = time.time() - t_stop
+                break
+            time.sleep(0.5)
+        cur = listed()
+        info.update({"silent_instance_gone_after_s": gone and round(gone, 1), "bound_s": bound, "listed_at_end": cur})
+        out.evaluations += 1
+        if gone is None:
+            out.violation("grpc-instance-of-silent-connection-not-removed/after-an-answered-probe",
+                          {"service": svc, "silent_connection_instance": "10.12.0.1", "probes_answered_before_silence": probes, "frozen_for_s": round(time.time() - t_stop, 1),
+                           "bound_s": bound, "listed": cur, "detection_timeout_s": DET, "response_timeout_s": 3})
+        elif "10.12.0.2" not in cur:
+            out.violation("instance-of-live-connection-removed/neighbour-of-silent-connection", {"service": svc, "listed": cur})
+        else:
+            out.shape("real/silent-connection/after-%d-answered-probes/removed" % min(probes, 2))
+        out.extra["silent_connection"] = info
+    except common.Inconclusive as e:
+        info["status"] = "inconclusive: %s" % str(e)[:300]
+        out.extra["silent_connection"] = info
+    finally:
+        for g in (a, b):
+            if g is not None:
+                try:
+                    import os as _os, signal as _sg
+                    _os.kill(g.p.pid, _sg.SIGCONT)
+                except Exception:
+                    pass
+                try:
+                    g.stop(abrupt=True)
+                except Exception:
+                    pass
+        node.kill()
+
+
 def use_local_findings():
     """also honour <clone>/known_findings.local.json (proposed entries that are not yet in known_findings.json)"""
     base = common.load_findings
@@ -598,7 +687,10 @@ def run(tier, seed):
         n_hist, n_ops = (40, 120) if tier == "quick" else (1250, 120)
         reports = common.run_vh_shards("c12", SHARDS, ["--histories", n_hist, "--ops", n_ops], wd, 120 if tier == "quick" else 600, seed)
         out.absorb(common.merge_reports(reports))
+        st = threading.Thread(target=silent_connection_part, args=(out, wd, seed), daemon=True)
+        st.start()
         real_part(out, wd, seed, 36 if tier == "quick" else 800, 6 if tier == "quick" else 8)
+        st.join(90)
         out.min_nontrivial = 150
         out.assumptions = [
             "in-process part: the Raft round trip of persistent instances (update / remove echo applied to the same actor) is reproduced by the harness from "
